@@ -149,18 +149,18 @@ theorem exec_loadActuals (K : PCtx) (wf : K.WF) : ∀ (es : List X.Expr) (fuel :
               congr 1; omega
           · intro q hq
             rw [hkeep q (by omega), Mem.read_write_other _ _ _ _ (by omega)]
-            apply frm1 _ (by omega)
+            apply frm1 _ (by omega) (wf.not_inArr _ (by omega))
             intro k h1' h2' e
             have hq' : q < K.S := by omega
             rw [← slot_of_out K q hq'] at e
             have := slot_inj K (K.S - 1 - q) k (by omega) (by have := e2.2.1; omega) e
             have := e2.2.1
             omega
-          · intro ad hsp had
-            rw [frm3 ad hsp (fun k h1' h2' => had k (by have := e1.1; omega) h2')]
+          · intro ad hsp hna had
+            rw [frm3 ad hsp hna (fun k h1' h2' => had k (by have := e1.1; omega) h2')]
             rw [Mem.read_write_other _ _ _ _ (fun e => had (K.S - 1 - p)
               (by have := e1.2.1; have := e2.2.1; omega) (by omega) (by rw [slot_of_out K p hpS]; exact e.symm))]
-            exact frm1 ad hsp (fun k h1' h2' => had k h1' (by have := e2.2.1; omega))
+            exact frm1 ad hsp hna (fun k h1' h2' => had k h1' (by have := e2.2.1; omega))
 
 /-! ### System-call statements -/
 
@@ -186,7 +186,8 @@ theorem optArgsOf_noCall (ρ : String → Option Word) (es : List X.Expr) (hp : 
   exact pure_noCall ρ e (hp e he)
 
 theorem Rep.setIo {K : PCtx} {σ : X.St} {mem : Mem} (h : Rep K σ mem) (io : Isa.IOSt) : Rep K { σ with io := io } mem :=
-  ⟨h.sp, h.vals, fun n w hn hr => h.vars n w hn hr, h.consts, h.locs, h.above, h.gvis, h.depth⟩
+  ⟨h.sp, h.vals, fun n w hn hr => h.vars n w hn hr, h.consts, h.locs, h.above, h.gvis, h.depth,
+   fun n r hr => h.aptr n r hr, fun id cells hc => h.acells id cells hc⟩
 
 theorem sysId_small (id : Nat) (h : id < 3) : sysIdOfNat id = (id : Int) := by
   unfold sysIdOfNat
